@@ -84,3 +84,15 @@ impl<const N: usize, Ns> Mappings<N, Ns> {
 mod testing {
 	// TODO: test internals
 }
+
+#[cfg(feature = "verif")]
+pub mod verif {
+	//! Verification hooks (feature `verif`): forwarding wrappers only.
+	use anyhow::Result;
+	use duke::tree::class::ObjClassName;
+	use crate::tree::names::{Names, Namespace};
+
+	pub fn contract_inner_class_name<const N: usize>(names: &Names<N, ObjClassName>, namespace: Namespace<N>) -> Result<Names<N, ObjClassName>> {
+		names.contract_inner_class_name(namespace)
+	}
+}
